@@ -150,15 +150,26 @@ def main(argv=None):
             raise RuntimeError("vacuity guard: zero obligations generated")
         discharge(run.obls, run.budget())
         known = load_known_findings()
+        groups = {}
         for o in run.obls:
             if o.status == "failed":
                 if isinstance(o, Cover):
                     run.undecided.append(o)
                     o.reason = "vacuity: cover query unsat (contradictory pre-condition or unreachable case)"
                 else:
-                    handle_failure(run, mod, o, known)
+                    # one witness search + native replay per failed contract clause (its other paths/cases are listed in the evidence)
+                    key = (o.func, o.clause)
+                    g = groups.setdefault(key, [])
+                    g.append(o)
+                    if len(g) <= 2 and len(groups) <= 24:
+                        handle_failure(run, mod, o, known)
+                    else:
+                        run.extra.setdefault("failed_obligations_not_replayed", []).append(o.name)
             elif o.status in ("unknown", "error", None):
                 run.undecided.append(o)
+        if run.extra.get("failed_obligations_not_replayed") and not run.violations and not run.known:
+            o = [x for x in run.obls if x.status == "failed" and not isinstance(x, Cover)][0]
+            handle_failure(run, mod, o, known)
         if hasattr(mod, "post"):
             mod.post(run)
     except core_unsupported() as e:
